@@ -13,7 +13,7 @@ Record obs := mkobs { o_exc : Z; o_ret : list Z; o_items : list (bool * Z); o_or
                       o_claimed : list Z; o_slot : list Z }.
 (* k_mode: 0 plain, 1 = part of the second run of auto_claim_comments, 2 = unclaim_leading/trailing that is
    followed by its claim, 3 = unclaim_interleaving_comments(cs) followed by claim_interleaving_comments(cs) *)
-Record step := mkstep { k_op : cop; k_obs : obs; k_mode : Z }.
+Record step := mkstep { k_op : eop; k_obs : obs; k_mode : Z }.
 Record ccase := mkccase { c_doc : doc; c_table : table; c_hists : list (list step) }.
 
 Definition exn_code (e : exn) : Z :=
@@ -26,14 +26,17 @@ Definition snap (d : doc) : list (Z * bool) := map (fun t => (t_id t, t_claimed 
 Definition zb_eqb (a b : Z * bool) := (fst a =? fst b) && Bool.eqb (snd a) (snd b).
 Definition bz_eqb (a b : bool * Z) := Bool.eqb (fst a) (fst b) && (snd a =? snd b).
 
-Definition is_inter (o : cop) : bool := match o with OS _ => false | _ => true end.
-Definition items_of_op (o : cop) : list oitem :=
+Definition is_inter (o : eop) : bool := match o with EC (OS _) | EAttach _ _ _ _ _ => false | _ => true end.
+Definition items_of_op (o : eop) : list oitem :=
   match o with
-  | OClaimInter _ _ items _ _ _ | OUnclaimInter _ items _ => map oitem_of items
+  | EC (OClaimInter _ _ items _ _ _) | EC (OUnclaimInter _ items _) => map oitem_of items
   | _ => []
   end.
+Definition estep_obs (st : doc * table) (o : eop) : res (list Z * list oitem) * (doc * table) :=
+  match o with EC o' => cstep_obs st o' | EAttach _ _ _ _ _ => (Ok ([], []), estep st o) end.
+Definition eop_slot (o : eop) : slot := match o with EC o' => op_slot o' | EAttach s _ _ _ _ => s end.
 
-Definition obs_ok (d0 : doc) (o : cop) (r : res (list Z * list oitem) * (doc * table)) (ob : obs) : bool :=
+Definition obs_ok (d0 : doc) (o : eop) (r : res (list Z * list oitem) * (doc * table)) (ob : obs) : bool :=
   let '(x, (d', tb')) := r in
   (match x with
    | Ok (ret, its) => (o_exc ob =? 0) && list_eqb Z.eqb ret (o_ret ob)
@@ -42,27 +45,27 @@ Definition obs_ok (d0 : doc) (o : cop) (r : res (list Z * list oitem) * (doc * t
    end)
   && list_eqb Z.eqb (map t_id d') (match o_order ob with Some l => l | None => map t_id d0 end)
   && list_eqb Z.eqb (map t_id (filter t_claimed d')) (o_claimed ob)
-  && list_eqb Z.eqb (tget tb' (op_slot o)) (o_slot ob).
+  && list_eqb Z.eqb (tget tb' (eop_slot o)) (o_slot ob).
 
 Fixpoint run_steps (st : doc * table) (l : list step) : bool :=
   match l with
   | [] => true
-  | k :: r => let x := cstep_obs st (k_op k) in obs_ok (fst st) (k_op k) x (k_obs k) && run_steps (snd x) r
+  | k :: r => let x := estep_obs st (k_op k) in obs_ok (fst st) (k_op k) x (k_obs k) && run_steps (snd x) r
   end.
 
-Definition restore_hyp (st : doc * table) (o : cop) (next : list step) : bool :=
+Definition restore_hyp (st : doc * table) (o : eop) (next : list step) : bool :=
   match o, next with
-  | OS (UnclaimLead n), k :: _ =>
+  | EC (OS (UnclaimLead n)), k :: _ =>
     match k_op k with
-    | OS (ClaimLead n' start _ ind) =>
+    | EC (OS (ClaimLead n' start _ ind)) =>
       (n =? n') && match adjacent_comment (fst st) start true ind with
                    | Some c => t_claimed c && list_eqb Z.eqb (tget (snd st) (SLead n)) [t_id c]
                    | None => false end
     | _ => false
     end
-  | OS (UnclaimTrail n), k :: _ =>
+  | EC (OS (UnclaimTrail n)), k :: _ =>
     match k_op k with
-    | OS (ClaimTrail n' start _ ind) =>
+    | EC (OS (ClaimTrail n' start _ ind)) =>
       (n =? n') && match adjacent_comment (fst st) start false ind with
                    | Some c => t_claimed c && list_eqb Z.eqb (tget (snd st) (STrail n)) [t_id c]
                    | None => false end
@@ -73,11 +76,11 @@ Definition restore_hyp (st : doc * table) (o : cop) (next : list step) : bool :=
 
 (* hypotheses of inter_unclaim_claim at an unclaim_interleaving_comments(cs) that is followed by
    claim_interleaving_comments(cs): the entries name block comments, the claimer gets the kept items and cs *)
-Definition restore_inter_hyp (st : doc * table) (o : cop) (next : list step) : bool :=
+Definition restore_inter_hyp (st : doc * table) (o : eop) (next : list step) : bool :=
   match o, next with
-  | OUnclaimInter r items flt, k :: _ =>
+  | EC (OUnclaimInter r items flt), k :: _ =>
     match k_op k, unclaim_inter (fst st) items flt with
-    | OClaimInter r' _ items2 _ _ (Some cs), (Ok (un, kept), _) =>
+    | EC (OClaimInter r' _ items2 _ _ (Some cs)), (Ok (un, kept), _) =>
       (r =? r') && refs_ok_b (fst st) items && list_eqb bz_eqb (map oitem_of items2) kept
       && list_eqb Z.eqb cs un
     | _, _ => false
@@ -89,11 +92,11 @@ Fixpoint hyp_steps (st : doc * table) (l : list step) : bool :=
   match l with
   | [] => true
   | k :: r =>
-    op_ok st (k_op k)
-    && (if k_mode k =? 1 then negb (all_claimed_b (fst st)) || auto_ok st (k_op k) else true)
+    eop_ok st (k_op k)
+    && (if k_mode k =? 1 then match k_op k with EC o => auto_ok st o | _ => false end else true)
     && (if k_mode k =? 2 then restore_hyp st (k_op k) r else true)
     && (if k_mode k =? 3 then restore_inter_hyp st (k_op k) r else true)
-    && hyp_steps (snd (cstep_obs st (k_op k))) r
+    && hyp_steps (snd (estep_obs st (k_op k))) r
   end.
 
 (* placeholders are empty (hypothesis of C04_text_unchanged); Inv (C14) *)
